@@ -9,6 +9,12 @@ acyclic).  The policy gets the virtual-clock settings (start time, tick sizes an
 kinds:  exp      complete outcomes, no noise          expany   failures / missing outputs / duplicate + stale messages
         expcmd   + hold / release / hold point / stop point / pause / stop + restart
         exptrig  + `cylc trigger` of single waiting tasks (manual submission), holds, pause, stop + restart
+        expq     limited internal queues (limits 1-2, often on the default queue) + `cylc trigger` of waiting tasks that are
+                 not queued (a full queue can only queue them: manually triggered AND queued) + holds / pause; most tasks
+                 clock-expire                                              [judged on the real trace only: no queue limits
+        exprl    `cylc reload` with definitions that differ ONLY in the     in the Sched3Exp model, no reload op]
+                 clock-expire declaration (offsets lengthened / shortened / dropped / added; case['variants'], each with
+                 its offsets for the judge) + holds / pause
 """
 from __future__ import annotations
 
@@ -23,11 +29,42 @@ UNIT = 3600
 REC = {'P1': 'PT1H', 'P2': 'PT2H', '+P1/P2': '+PT1H/PT2H', 'R1': 'R1', 'R1/$': 'R1/$', 'R1/+P1': 'R1/+PT1H'}
 OFFSETS = [('', 0), ('PT30M', 1800), ('PT1H', 3600), ('PT1H', 3600), ('PT2H', 7200), ('-PT1H', -3600),
            ('PT90M', 5400), ('PT3H', 10800), ('PT0M', 0)]
-BASE_KIND = {'exp': 'complete', 'expany': 'any', 'expcmd': 'cmd', 'exptrig': 'cmd'}
+BASE_KIND = {'exp': 'complete', 'expany': 'any', 'expcmd': 'cmd', 'exptrig': 'cmd', 'expq': 'cmd', 'exprl': 'cmd'}
+JUDGE_ONLY = ('expq', 'exprl')
 
 
 def p2s(p: int) -> str:
     return (ORIGIN + timedelta(seconds=UNIT * int(p))).strftime('%Y%m%dT%H%MZ')
+
+
+def clock_expire_decl(exp):
+    return ', '.join(f'{t}({o[0]})' if o[0] else t for t, o in sorted(exp.items()))
+
+
+def reload_variants(rng: random.Random, flow, exp, tasks):
+    """Definitions that differ from `flow` only in the clock-expire declaration: [{'tag', 'flow', 'offsets'}]."""
+    out = [{'tag': 'same', 'flow': flow, 'offsets': {t: o[1] for t, o in exp.items()}}]
+    for k in range(rng.choice([2, 3])):
+        new = {}
+        for t in tasks:
+            cur = exp.get(t)
+            r = rng.random()
+            if cur is None:
+                if r < 0.15:
+                    new[t] = rng.choice(OFFSETS)            # newly declared clock-expire
+            elif r < 0.12 and len(exp) > 1:
+                pass                                        # declaration dropped
+            elif r < 0.7:
+                # another offset: mostly a longer one (the natural way to stop an impending expiry)
+                longer = [o for o in OFFSETS if o[1] > cur[1]]
+                new[t] = rng.choice(longer) if longer and rng.random() < 0.7 else rng.choice(OFFSETS)
+            else:
+                new[t] = cur
+        if not new:
+            new = dict(exp)
+        text = re.sub(r'^        clock-expire = .*$', '        clock-expire = ' + clock_expire_decl(new), flow, flags=re.M)
+        out.append({'tag': f'v{k}', 'flow': text, 'offsets': {t: o[1] for t, o in new.items()}})
+    return out
 
 
 def to_datetime(wf, rng: random.Random, opts=None):
@@ -73,7 +110,7 @@ def to_datetime(wf, rng: random.Random, opts=None):
         return f'{m.group(1)}{REC[rec]}{m.group(3)}\n{more}'
     text = re.sub(r'^(        )([^ =\n]+)( = """)\n', header, text, flags=re.M)
     text = text.replace('[-P1]', '[-PT1H]').replace('[-P2]', '[-PT2H]')
-    decl = ', '.join(f'{t}({o[0]})' if o[0] else t for t, o in sorted(exp.items()))
+    decl = clock_expire_decl(exp)
     if '    [[special tasks]]\n' in text:
         text = text.replace('    [[special tasks]]\n', f'    [[special tasks]]\n        clock-expire = {decl}\n', 1)
     else:
@@ -81,16 +118,24 @@ def to_datetime(wf, rng: random.Random, opts=None):
     run_opts = dict(wf['opts'])
     if 'startcp' in run_opts:
         run_opts['startcp'] = p2s(int(run_opts['startcp']))
+    if opts.get('_exp_out') is not None:
+        opts['_exp_out'].update(exp)
     return text, run_opts, {t: o[1] for t, o in exp.items()}
 
 
 def gen_case(seed: int, kind='exp', opts=None):
     rng = random.Random(seed)
     opts = dict(opts or {})
+    if kind == 'expq':
+        opts = dict({'queue_limits': [1, 1, 2], 'default_queue_limits': [1, 1, 2], 'p_default_limit': 0.7,
+                     'p_expire': 0.8}, **opts, queues=True)
+    if kind == 'exprl':
+        opts = dict({'p_expire': 0.7}, **opts)
     wf = sgen.gen_workflow(rng, opts)
     base = BASE_KIND.get(kind, 'complete')
     pol = sgen.gen_policy(rng, wf, base, opts)
-    flow, run_opts, offsets = to_datetime(wf, rng, opts)
+    exp_full = {}
+    flow, run_opts, offsets = to_datetime(wf, rng, dict(opts, _exp_out=exp_full))
     icp = wf['icp']
     now0 = rng.choice([(icp - 2) * UNIT, icp * UNIT, icp * UNIT + 1800, (icp + 1) * UNIT, (icp + 2) * UNIT,
                        (icp + 1) * UNIT + 900])
@@ -105,9 +150,28 @@ def gen_case(seed: int, kind='exp', opts=None):
         pol['p_cmd'] = 0.08
         pol['p_trig'] = rng.choice([0.05, 0.1, 0.15])
         pol['restarts'] = rng.choice([0, 0, 1])
-    return {'id': f'{kind}{seed}', 'flow': flow, 'seed': seed, 'opts': run_opts, 'policy': pol, 'ops': None,
+    case = {'id': f'{kind}{seed}', 'flow': flow, 'seed': seed, 'opts': run_opts, 'policy': pol, 'ops': None,
             'kind': kind, 'dt': {'now0': now0, 'unit': UNIT},
             'spec_exp': {'offsets': offsets, 'unit': UNIT}}
+    if kind == 'expq':
+        # (drawn after everything else) triggers of waiting, not queued tasks against full queues; the clock starts
+        # before the first expiry time so that triggered tasks are still queued when it passes
+        pol['cmds'] = ['hold', 'release', 'pause', 'resume']
+        pol['p_cmd'] = 0.06
+        pol['p_trig'] = rng.choice([0.15, 0.2, 0.3])
+        pol['trig_unqueued'] = True
+        pol['restarts'] = 0
+        case['dt']['now0'] = rng.choice([(icp - 1) * UNIT, icp * UNIT, icp * UNIT + 1800])
+        case['judge_only'] = True
+    if kind == 'exprl':
+        pol['cmds'] = ['reload', 'reload', 'reload', 'reload', 'hold', 'release', 'pause', 'resume']
+        pol['p_cmd'] = rng.choice([0.1, 0.15, 0.22])
+        pol['restarts'] = 0
+        case['dt']['now0'] = rng.choice([(icp - 1) * UNIT, icp * UNIT, icp * UNIT + 1800])
+        case['variants'] = reload_variants(rng, flow, exp_full, wf['tasks'])
+        case['spec_exp']['variants'] = {v['tag']: v['offsets'] for v in case['variants']}
+        case['judge_only'] = True
+    return case
 
 
 if __name__ == '__main__':
